@@ -173,13 +173,7 @@ pub struct Mach {
 impl Drop for Mach {
     fn drop(&mut self) {
         if !self.is_view {
-            // managers with a capacity below 100 have no collector thread that could leak; the
-            // fixed pause only keeps their worker threads (which exit asynchronously) from piling up
-            let us = if self.cfg.capacity >= 100 { crate::run::manager_min_lifetime_us() } else { 400 };
-            let min = std::time::Duration::from_micros(us);
-            while self.created.elapsed() < min {
-                std::thread::yield_now();
-            }
+            crate::run::await_manager_lifetime(self.created);
         }
     }
 }
